@@ -643,7 +643,14 @@ func parseAlert(ID string, alert *gtfsrt.Alert, opts *ParseRealtimeOptions) (*Al
 		informedEntities = append(informedEntities, informedEntity)
 	}
 
-	for routeID, directions := range informedRoutesFromTripIDs {
+	// Map iteration order is random; order the routes by ID to make the output deterministic.
+	routeIDs := make([]string, 0, len(informedRoutesFromTripIDs))
+	for routeID := range informedRoutesFromTripIDs {
+		routeIDs = append(routeIDs, routeID)
+	}
+	sort.Strings(routeIDs)
+	for _, routeID := range routeIDs {
+		directions := informedRoutesFromTripIDs[routeID]
 		if informedRoutes[routeID] {
 			continue
 		}
